@@ -443,8 +443,18 @@ class Evaluator:
             import re
             # LIKE: % any run, _ one char.  SQLite's LIKE is ASCII
             # case-insensitive, MySQL's default collation too.
-            rx = ''.join('.*' if ch == '%' else '.' if ch == '_'
-                         else re.escape(ch) for ch in rv)
+            esc = (getattr(e, 'modifiers', None) or {}).get('escape')
+            rx, it = '', iter(rv)
+            for ch in it:
+                if esc and ch == esc:
+                    # LIKE ... ESCAPE: the next character stands for itself
+                    rx += re.escape(next(it, ''))
+                elif ch == '%':
+                    rx += '.*'
+                elif ch == '_':
+                    rx += '.'
+                else:
+                    rx += re.escape(ch)
             return (Or(ln, rn),
                     re.fullmatch(rx, lv, re.S | re.I) is not None)
         ln, lv = self.eval(e.left, env)
